@@ -29,6 +29,11 @@ type Gen struct {
 	salt    uint64
 	Seen    map[string]int // kinds drawn
 	TagsN   map[string]int // value-class tags drawn
+
+	// validators whose node is down (absent from every commit) from height DownFrom on; drawn by the first DrawEnv
+	Down      []int
+	DownFrom  int64
+	downDrawn bool
 }
 
 var (
